@@ -2,16 +2,32 @@
 (* Judge for C29: replays the find-node replies harness/cmd/hivedrv recorded *)
 (* from the real hive2 handler (through streamtest) against Hive's reply     *)
 (* predicate.  Monitor mode.  The reset event carries the setup.             *)
+(* Every event carries the driver's projection `st` of the topology          *)
+(* (conn: EachPeer, known: EachKnownPeer).  Churn events (connected,         *)
+(* disconnected, addpeers, force) may lie between requests or -- events with *)
+(* `during` -- inside a request that is then logged as "wbegin", the events, *)
+(* "find" with `conc` (see HiveWalk.tla).  The five clauses of the statement *)
+(* do not depend on the peer sets and are judged as they stand whatever the  *)
+(* interleaving; "offers only peers it knew" is judged against the peers     *)
+(* known at some point of the call.                                          *)
 EXTENDS Hive, TraceKit
 
-VARIABLES l, bad, notes
-tvars == <<vars, l, bad, notes>>
+VARIABLES l, bad, notes,
+          kany,     \* peers connected or known at some point since the running gated request began
+          gated,    \* a gated request is running
+          dirty     \* the topology is no longer the one of the setup
+tvars == <<vars, l, bad, notes, kany, gated, dirty>>
+
+Churn == {"connected", "disconnected", "addpeers", "force"}
+KnownNow(e) == ToSet(e.st.conn) \cup ToSet(e.st.known)
+R_KnownDuringCall(reply, K) == \A i \in DOMAIN reply : reply[i] \in K
 
 Setup0 == [peers |-> <<>>, req |-> [p |-> <<SelfBin, 0>>, u |-> "none"], allow |-> FALSE]
 SetupOf(e) == [peers |-> e.peers, req |-> e.req, allow |-> e.allow]
 
-Verdict(e, s) ==
-  IF e.op # "find" THEN <<>>
+Verdict(e, s, K) ==
+  IF e.op \in Churn THEN Clause("no_panic", ~e.panicked)
+  ELSE IF e.op # "find" THEN <<>>
   ELSE    Clause("no_panic", ~e.panicked)
        \o Clause("C29:reply_received", e.err = "")
        \o Clause("C29:at_most_the_requested_number_max_30", R_AtMostRequested(e.reply, e.limit))
@@ -19,20 +35,30 @@ Verdict(e, s) ==
        \o Clause("C29:proximity_among_requested_orders", R_OrdersRequested(e.reply, e.t, e.pos))
        \o Clause("C29:no_repetition", R_NoRepetition(e.reply))
        \o Clause("C29:no_private_address_to_public_requester", R_NoPrivateToPublic(e.reply, s))
+       \o Clause("C29:offers_only_peers_known_during_the_call", R_KnownDuringCall(e.reply, K))
 
 \* conformance: the reply is one the mechanism produces with the code's split; records are passed on unchanged
-NotesOf(e, s) ==
+NotesOf(e, s, d) ==
   IF e.op # "find" THEN <<>>
-  ELSE    Clause("reply_as_mechanism", ToSet(e.reply) \in RepliesSeq(s, e.limit, e.t, e.pos, ImplSplit(e.limit)))
+  ELSE    (IF d THEN <<>>
+           ELSE Clause("reply_as_mechanism", ToSet(e.reply) \in RepliesSeq(s, e.limit, e.t, e.pos, SpecSplit(e.limit))))
        \o Clause("records_unchanged", e.umatch)
+       \o (IF Has(e, "conc") THEN Clause("gates_all_reached", e.left = 0) ELSE <<>>)
 
-TInit == l = 1 /\ bad = <<>> /\ notes = <<>> /\ setup = Setup0 /\ res = [op |-> "init"]
+TInit == /\ l = 1 /\ bad = <<>> /\ notes = <<>> /\ setup = Setup0 /\ res = [op |-> "init"]
+         /\ kany = {} /\ gated = FALSE /\ dirty = FALSE
 TStep == /\ l <= NEvents
          /\ LET e  == Trace[l]
                 s  == IF e.op = "reset" THEN SetupOf(e) ELSE setup
-                cs == Verdict(e, s)
-                ns == NotesOf(e, s)
+                g  == IF e.op = "reset" THEN FALSE ELSE gated
+                K  == IF g THEN kany \cup KnownNow(e) ELSE KnownNow(e)
+                d  == IF e.op = "reset" THEN FALSE ELSE dirty \/ e.op \in Churn
+                cs == Verdict(e, s, K)
+                ns == NotesOf(e, s, d)
             IN /\ l' = l + 1
+               /\ kany' = K
+               /\ gated' = IF e.op = "wbegin" THEN TRUE ELSE IF e.op \in {"find", "reset"} THEN FALSE ELSE g
+               /\ dirty' = d
                /\ setup' = s
                /\ bad' = IF cs = <<>> THEN bad ELSE Append(bad, BadRec(l, e, cs))
                /\ notes' = IF ns = <<>> \/ Len(notes) >= 40 THEN notes
